@@ -10,13 +10,20 @@ first / last / the explicit index over the timeseries met by a depth-first walk;
 
 Spec format (plain JSON)
     tree node : ['s', idx, vals, dtype]            Series; idx = sorted axis positions, vals = floats, None = NaN
-                ['f', idx, cols, rows]             DataFrame; rows[i][j] = float or None
+                ['f', idx, cols, rows]             DataFrame; rows[i][j] = float or None; cols = labels (all str or all int; may repeat)
+                both may carry a 5th element, a dict of options: {'unit': 's'|'ms'|'us'|'ns'} = resolution of the DatetimeIndex,
+                {'intcols': [j, ..]} = these frame columns are int64 (no NaN in them)
                 ['a', dtype, shape, flat]          bare numpy array (row-major, None = NaN)
                 ['v', x]                           a non-timeseries member (None / int / float / str)
                 ['list', [nodes]], ['tuple', [nodes]], ['dict', [[key, node], ..]], ['Dict', [[key, node], ..]]
-    join      : 'ij' / 'inner' / 'oj' / ... / ['idx', positions] (a DatetimeIndex) / ['series', positions] (a Series used as index)
+    join      : 'ij' / 'inner' / 'oj' / ... / ['idx', positions(, unit)] (a DatetimeIndex) / ['series', positions(, unit)] (a Series used as index)
                 / ['arg', i] (presync(index='p<i>'): the index of that argument)
+                / ['member', k] (the k-th timeseries of the tree, in walk order, is ALSO handed in as the index) / ['member_index', k] (its .index object)
+    flags     : share_index (equal stamps + equal unit -> one index object), same_objects (equal leaf specs -> ONE object, passed several times),
+                kw (df_* called with keyword arguments), columns_call (presync: columns= given at call time), default (presync(default=..)),
+                sig (shape of the decorated function)
 """
+import copy
 import datetime
 import json
 import os
@@ -27,28 +34,40 @@ from pv.core import Sub, Violation, call, check, short
 
 ASSUMPTIONS = [
     'timeseries indices are strictly increasing (sorted, no duplicate stamps) subsets of a 12-stamp irregular axis (intraday and multi-day gaps); '
-    'explicit target indices are sorted duplicate-free subsets of the same axis (pandas as-of reindexing needs monotonic unique stamps)',
-    'containers are list / dict / pyg Dict with string keys other than "index", nested to depth 3 (the statement says list/dict: df_index does not look '
+    'explicit target indices are sorted duplicate-free subsets of the same axis (pandas as-of reindexing needs monotonic unique stamps); the indices are '
+    'DatetimeIndex objects of resolution s / ms / us / ns (mixed within a case in a minority of cases): one instant in two resolutions is one timestamp',
+    'containers are list / dict / pyg Dict with string keys other than "index" or with integer keys (one kind per dict), nested to depth 3 (the statement says list/dict: df_index does not look '
     'inside nested tuples); a tuple is used only as the top-level argument of df_sync, which lists it explicitly, and as presync *args',
     'under a fill method an original NaN is not an observation: the cell gets the last/next non-NaN observation (presync docstring example a.ffill(x,y))',
     'the expected index is compared as an ordered list (ascending, as every input is ascending); the common column set is compared as a set '
-    '(the statement says "column set") and duplicate labels are rejected; frames have unique string column labels (frames with duplicate labels '
-    'are documented to be treated like arrays)',
+    '(the statement says "column set") and duplicate labels in a result are rejected; the column labels of a case are all str or all int',
+    'frames that repeat a column label are generated only where no column policy acts (df_reindex, df_index, df_sync(columns=None/False), presync(columns=False)): '
+    'there they must keep their columns as they are, cells are read by position. What a column policy does with such a frame is not fixed by the statement '
+    '(df_columns documents "treated like arrays"), so they are kept out of those calls',
     'left/right = first/last timeseries met by a depth-first walk in list order / dict insertion order (presync: positional arguments, then keywords)',
-    'cells are float64 (one int64 Series kind without NaN); values are compared with == (no arithmetic happens), NaN positions exactly',
+    'cells are float64, plus int64 Series and int64 frame columns (these without NaN); values are compared with == (no arithmetic happens, the dtype of a '
+    'result is not checked), NaN positions exactly',
     'column policies act on frames with >= 2 columns; Series and single-column frames keep their shape (df_sync docstring); with columns=None/False '
     'and in df_reindex every frame keeps its own columns',
     'presync: columns=False mode passes whole objects (any tree); the default column mode is exercised on trees without frames (f is then called once, '
     'with every Series on the common index) and, separately (presync_cols), with frames, where the calls of f are recorded column by column',
-    'presync policy spellings: constructor arguments, the .ij/.oj/.lj/.rj/.ffill/.bfill properties, call-time join=/method= keywords, and index="p<i>" '
-    '(the index of a named argument that is a single timeseries)',
+    'presync policy spellings: constructor arguments, the .ij/.oj/.lj/.rj/.ffill/.bfill properties, call-time join=/method=/columns= keywords (a call-time '
+    'keyword wins over the constructor), and index="p<i>" (the index of a named argument that is a single timeseries)',
+    'the decorated function is f(p0..p3), f(p0, *rest), f(p0, **kw), f(*a, **kw), f(p0, *, p1, p2, p3) or a function whose declared defaults are a Series / a tuple / '
+    'a dict holding timeseries: a declared default is not an argument, so it takes no part in the common index, is not aligned, and f must see the very object',
+    'presync(default=x): in the per-column mode a multi-column frame that lacks the column is shown to f as x (NaN when not given), as the presync docstring says',
+    'an explicit index may be one of the operands (a Series / frame handed in as index=, or its .index object); one timeseries object may occur several times in '
+    'the arguments; both are judged by the ordinary oracle',
+    'the fill method is exactly None / "ffill" / "bfill" (the quantifier): lists of methods, numbers, interpolation names and limit= are not generated',
+    'operands unchanged includes the containers of the caller: after every call each list / dict that was handed in must hold the very objects it was built with; '
+    'in a session half of the cases hand the SAME list / dict objects to several calls, and one parameterised presync decorator object serves all presync calls',
     'bare numpy arrays are checked separately from pandas objects (the quantifier says "separately"): 1-d and 2-d, 0-6 rows, int64/float64; '
     'with a fill method the NaN front padding and NaN cells are filled per column; when ffill would have to reach into a leading row that the '
     'truncation dropped, both NaN and that dropped value are accepted (the statement does not say whether lost rows are observations)',
-    'KNOWN F11 (excluded by construction unless PV_C03_INCLUDE_F11=1): fill method + frame with >= 2 columns + a partially-NaN row whose row-wise '
-    'as-of value differs from the per-column as-of value at some target stamp',
-    'KNOWN F14 (excluded by construction unless PV_C03_INCLUDE_F14=1): bare arrays whose common length is 0 while some array is longer '
-    '(ts[-0:] keeps the whole array)',
+    'F11 (fill method + frame with >= 2 columns + a partially-NaN row whose row-wise as-of value differs from the per-column as-of value at some target stamp) '
+    'is fixed in /repo and generated; PV_C03_EXCLUDE_F11=1 leaves the class out by construction for runs against a tree without that fix',
+    'F14 (bare arrays whose common length is 0 while some array is longer: ts[-0:] kept the whole array) is fixed in /repo and generated; '
+    'PV_C03_EXCLUDE_F14=1 leaves the class out by construction',
     'F15 (fill method + a frame with zero rows came back without its columns) is fixed in /repo by 7d8a266 and generated again; '
     'PV_C03_EXCLUDE_F15=1 replaces such frames by zero-row Series for runs against a tree without that fix',
 ]
@@ -110,6 +129,8 @@ def _exp_index(join, idxs, top=None):
         return list(join[1])
     if k == 'arg':
         return list(top[join[1]][1])
+    if k in ('member', 'member_index'):
+        return list(idxs[join[1]])
     if k == 'i':
         return [p for p in idxs[0] if all(p in s for s in idxs[1:])]
     if k == 'o':
@@ -234,7 +255,7 @@ def _repair_f11(spec):
     def fix(leaf):
         if leaf[0] == 'f' and _frame_is_f11(leaf, target, spec['method']):
             rows = [[None] * len(r) if any(x is None for x in r) else list(r) for r in leaf[3]]
-            return ['f', leaf[1], leaf[2], rows]
+            return ['f', leaf[1], leaf[2], rows] + list(leaf[4:])
         return leaf
     return dict(spec, tree=_map_tree(spec['tree'], fix))
 
@@ -287,7 +308,7 @@ def _repair_f15(spec):
     """construction: under a fill method a zero-row frame is replaced by a zero-row Series (same index, so every expected index is unchanged)"""
     if INCLUDE_F15 or not is_f15(spec):
         return spec
-    return dict(spec, tree=_map_tree(spec['tree'], lambda l: ['s', [], [], 'float'] if (l[0] == 'f' and not l[1]) else l))
+    return dict(spec, tree=_map_tree(spec['tree'], lambda l: ['s', [], [], 'float'] + list(l[4:]) if (l[0] == 'f' and not l[1]) else l))
 
 
 def _repair(spec):
@@ -303,29 +324,47 @@ def _nan(x):
     return float('nan') if x is None else x
 
 
-_SHARED = [None]     # a dict while a case with spec['share_index'] is being built: equal position lists -> ONE pd.Index object
+_SHARED = [None]     # a dict while a case with spec['share_index'] is being built: equal position lists (and unit) -> ONE pd.Index object
 
 
-def _mk_index(pos):
+def _opts(node):
+    return node[4] if len(node) > 4 else {}
+
+
+def _unit(node_or_join):
+    """resolution of the index of a leaf / of an explicit target; None = what pandas infers from datetime objects"""
+    if node_or_join[0] in ('s', 'f'):
+        return _opts(node_or_join).get('unit')
+    return node_or_join[2] if len(node_or_join) > 2 else None
+
+
+def _mk_index(pos, unit=None):
     import pandas as pd
+
+    def make():
+        i = pd.DatetimeIndex([AXIS[p] for p in pos])
+        return i.as_unit(unit) if unit else i
     if _SHARED[0] is not None:
-        key = tuple(pos)
+        key = (tuple(pos), unit)
         if key not in _SHARED[0]:
-            _SHARED[0][key] = pd.DatetimeIndex([AXIS[p] for p in pos])
+            _SHARED[0][key] = make()
         return _SHARED[0][key]
-    return pd.DatetimeIndex([AXIS[p] for p in pos])
+    return make()
 
 
 def _build_case(spec):
     """builds spec['tree']; with spec['share_index'] timeseries whose stamps are equal share one index object (as columns cut out
     of one frame, or series built on one calendar, do)"""
-    if _OBJECTS[0] is not None:        # inside a session: objects and index objects are managed by run_session
+    if _SESSION[0]:        # inside a session: objects, containers and index objects are managed by run_session
         return _build(spec['tree'])
     _SHARED[0] = {} if spec.get('share_index') else None
+    _OBJECTS[0] = {} if spec.get('same_objects') else None      # equal leaf specs -> one object, handed in several times
+    _SNAPS[0] = []
     try:
         return _build(spec['tree'])
     finally:
         _SHARED[0] = None
+        _OBJECTS[0] = None
 
 
 def _share_classes(spec, leaves):
@@ -345,7 +384,10 @@ def _share_classes(spec, leaves):
     return cls
 
 
-_OBJECTS = [None]     # while a session case runs: timeseries leaf spec (json) -> the ONE object built for it, shared by all calls of the session
+_OBJECTS = [None]     # timeseries leaf spec (json) -> the ONE object built for it (a session: shared by all its calls; spec['same_objects']: within the case)
+_CONTAINERS = [None]  # while a session with share_containers runs: container spec (json) -> the ONE list / dict built for it, handed to several calls
+_SESSION = [False]
+_SNAPS = [[]]         # (container, its members at build time): the caller's own containers must come back from every call as they went in
 
 
 def _build(node):
@@ -354,7 +396,32 @@ def _build(node):
         if key not in _OBJECTS[0]:
             _OBJECTS[0][key] = _build_node(node)
         return _OBJECTS[0][key]
+    if _CONTAINERS[0] is not None and node[0] in ('list', 'dict', 'Dict'):
+        key = json.dumps(node)
+        if key not in _CONTAINERS[0]:
+            _CONTAINERS[0][key] = _snap(_build_node(node))
+        return _CONTAINERS[0][key]
+    if node[0] in ('list', 'dict', 'Dict'):
+        return _snap(_build_node(node))
     return _build_node(node)
+
+
+def _snap(container):
+    _SNAPS[0].append((container, list(container.items()) if isinstance(container, dict) else list(container)))
+    return container
+
+
+def _verify_containers(what):
+    """the caller's own lists / dicts still hold the very objects (same order, same keys) they were built with"""
+    for container, members in _SNAPS[0]:
+        now = list(container.items()) if isinstance(container, dict) else list(container)
+        ok = len(now) == len(members)
+        if ok and isinstance(container, dict):
+            ok = all(a[0] == b[0] and a[1] is b[1] for a, b in zip(now, members))
+        elif ok:
+            ok = all(a is b for a, b in zip(now, members))
+        if not ok:
+            raise Violation('%s modified a container of its caller: %s now holds %s' % (what, short(members, 120), short(now, 120)))
 
 
 def _build_node(node):
@@ -366,12 +433,18 @@ def _build_node(node):
     if t == 's':
         idx, vals, dtype = node[1], node[2], node[3]
         if dtype == 'int':
-            return pd.Series(np.array(vals, dtype='int64'), index=_mk_index(idx))
-        return pd.Series(np.array([_nan(v) for v in vals], dtype='float64'), index=_mk_index(idx))
+            return pd.Series(np.array(vals, dtype='int64'), index=_mk_index(idx, _unit(node)))
+        return pd.Series(np.array([_nan(v) for v in vals], dtype='float64'), index=_mk_index(idx, _unit(node)))
     if t == 'f':
         idx, cols, rows = node[1], node[2], node[3]
+        intcols = _opts(node).get('intcols') or []
+        if intcols:
+            data = {j: np.array([_nan(r[j]) for r in rows], dtype='int64' if j in intcols else 'float64') for j in range(len(cols))}
+            res = pd.DataFrame(data, index=_mk_index(idx, _unit(node)))
+            res.columns = list(cols)
+            return res
         data = np.array([[_nan(x) for x in r] for r in rows], dtype='float64').reshape((len(idx), len(cols)))
-        return pd.DataFrame(data, index=_mk_index(idx), columns=list(cols))
+        return pd.DataFrame(data, index=_mk_index(idx, _unit(node)), columns=list(cols))
     if t == 'a':
         dtype, shape, flat = node[1], node[2], node[3]
         if dtype == 'int':
@@ -389,14 +462,28 @@ def _build_node(node):
     raise ValueError(node)
 
 
-def _build_join(join):
+def _leaf_objects(node, obj):
+    """the built timeseries objects of a tree, in walk order"""
+    t = node[0]
+    if t in ('list', 'tuple'):
+        return [x for i, c in enumerate(node[1]) for x in _leaf_objects(c, obj[i])]
+    if t in ('dict', 'Dict'):
+        return [x for k, c in node[1] for x in _leaf_objects(c, obj[k])]
+    return [obj] if t in ('s', 'f') else []
+
+
+def _build_join(join, tree=None, objs=None):
     if isinstance(join, list):
         if join[0] == 'idx':
-            return _mk_index(join[1])
+            return _mk_index(join[1], _unit(join))
         if join[0] == 'series':
-            return _build(['s', join[1], [float(i) for i in range(len(join[1]))], 'float'])
+            return _build_node(['s', join[1], [float(i) for i in range(len(join[1]))], 'float'] + ([{'unit': _unit(join)}] if _unit(join) else []))
         if join[0] == 'arg':
             return 'p%i' % join[1]
+        if join[0] == 'member':
+            return _leaf_objects(tree, objs)[join[1]]
+        if join[0] == 'member_index':
+            return _leaf_objects(tree, objs)[join[1]].index
     return join
 
 
@@ -453,6 +540,15 @@ def _cmp_frame(node, res, ctx, path):
     idx, cols, rows = node[1], node[2], node[3]
     check(isinstance(res, pd.DataFrame), '%s: a DataFrame came back as %s', where, type(res).__name__)
     _check_index(where, res, ctx.target)
+    if len(set(cols)) < len(cols):
+        # labels that repeat: no column policy acts on such a frame (ASSUMPTIONS), it keeps its columns as they are; cells are read by position
+        got = list(res.columns)
+        check(got == list(cols), '%s: columns are %s, expected its own %s', where, got, cols)
+        for j in range(len(cols)):
+            exp, filled = _asof(idx, _col(rows, j), ctx.target, ctx.method)
+            ctx.filled += filled
+            _check_column('%s column #%i (%r)' % (where, j, cols[j]), res.iloc[:, j].values.tolist(), exp)
+        return
     expcols = ctx.cols if (ctx.cols is not None and len(cols) >= 2) else cols
     got = list(res.columns)
     check(len(got) == len(set(got)) and set(got) == set(expcols), '%s: columns are %s, expected the set %s (own columns %s)', where, got, sorted(expcols), cols)
@@ -488,13 +584,22 @@ def _cmp(node, orig, res, ctx, path='result'):
         raise ValueError(node)
 
 
+def _verify_all(tree, objs, what):
+    _verify_containers(what)
+    _verify_inputs(tree, objs, what)
+
+
 def _verify_inputs(node, obj, what, path='argument'):
     """operands unchanged: the objects handed in must still be what the spec says"""
     t = node[0]
     if t in ('list', 'tuple'):
+        if not (isinstance(obj, (list, tuple)) and len(obj) == len(node[1])):
+            raise Violation('%s modified the container %s: now %s' % (what, path, short(obj, 120)))
         for i, c in enumerate(node[1]):
             _verify_inputs(c, obj[i], what, '%s[%i]' % (path, i))
     elif t in ('dict', 'Dict'):
+        if not isinstance(obj, dict):
+            raise Violation('%s modified the container %s: now %s' % (what, path, short(obj, 120)))
         check(sorted(obj.keys()) == sorted(k for k, c in node[1]), '%s modified the keys of %s', what, path)
         for k, c in node[1]:
             _verify_inputs(c, obj[k], what, '%s[%r]' % (path, k))
@@ -510,8 +615,9 @@ def _verify_inputs(node, obj, what, path='argument'):
 
 def _describe(spec):
     tree = spec['tree']
-    return '%s(<%s>, join=%s, method=%s%s)' % (spec['call'], _sketch(tree), spec['join'], spec['method'],
-                                                 ', columns=%s' % (spec['columns'],) if 'columns' in spec else '')
+    return '%s(<%s>, join=%s, method=%s%s)%s' % (spec['call'], _sketch(tree), spec['join'], spec['method'],
+                                                   ', columns=%s' % (spec['columns'],) if 'columns' in spec else '',
+                                                   ' [keyword call]' if spec.get('kw') else '')
 
 
 def _sketch(node):
@@ -521,9 +627,9 @@ def _sketch(node):
     if t in ('dict', 'Dict'):
         return t[0] + '{' + ','.join('%s:%s' % (k, _sketch(c)) for k, c in node[1]) + '}'
     if t == 's':
-        return 'S%s' % (node[1],)
+        return 'S%s%s' % (node[1], _unit(node) or '')
     if t == 'f':
-        return 'F%s%s' % (''.join(node[2]), node[1])
+        return 'F%s%s%s' % (''.join(str(c) for c in node[2]) if all(isinstance(c, str) for c in node[2]) else node[2], node[1], _unit(node) or '')
     if t == 'a':
         return 'A%s' % (node[2],)
     return repr(node[1])
@@ -611,8 +717,69 @@ def _classes(spec, leaves, target, ctx):
     if 'same_span_same_length_different_interior' in cls and _jkind(spec['join']) in ('i', 'o'):
         cls.append('twins_under_ij_oj')
     cls += _share_classes(spec, leaves)
+    cls += _round4_classes(spec, leaves, target)
     nt = len(idxs) >= 2 and (partial or disjoint) or bool(ctx is not None and ctx.filled)
     return dict(nt=bool(nt), cls=cls)
+
+
+def _list_sizes(node, top=True, npos=None):
+    """member counts of the list / tuple containers the library loops over (presync: the positional arguments form one such tuple)"""
+    t = node[0]
+    out = []
+    if t in ('list', 'tuple'):
+        out.append(npos if (top and npos is not None) else len(node[1]))
+        for c in node[1]:
+            out += _list_sizes(c, False)
+    elif t in ('dict', 'Dict'):
+        for k, c in node[1]:
+            out += _list_sizes(c, False)
+    return out
+
+
+def _dict_keys(node):
+    t = node[0]
+    if t in ('list', 'tuple'):
+        return [k for c in node[1] for k in _dict_keys(c)]
+    if t in ('dict', 'Dict'):
+        return [k for k, c in node[1]] + [x for k, c in node[1] for x in _dict_keys(c)]
+    return []
+
+
+def _round4_classes(spec, leaves, target):
+    """labels of the input classes added for bug classes 11-20 of the builder brief"""
+    cls = []
+    join = spec['join']
+    units = set(_unit(l) or 'us' for l in leaves)
+    if isinstance(join, list) and join[0] in ('idx', 'series'):
+        units.add(_unit(join) or 'us')
+    if len(units) >= 2:
+        cls.append('mixed_datetime_units')
+    keys = [json.dumps(l) for l in leaves]
+    if len(set(keys)) < len(keys):
+        one = bool(spec.get('same_objects') or _SESSION[0])
+        cls.append('same_object_passed_twice' if one else 'equal_operands_distinct_objects')
+        k = _jkind(join)
+        if one and len(set(tuple(l[1]) for l in leaves)) >= 2 and ((k == 'r' and keys[-1] in keys[:-1]) or (k == 'l' and keys[0] in keys[1:])):
+            cls.append('left_right_join_with_a_repeated_object')     # "the last / first timeseries" is an object that was met before / comes again
+    if isinstance(join, list) and join[0] in ('member', 'member_index'):
+        cls.append('operand_is_also_the_target')
+    frames = [l for l in leaves if l[0] == 'f']
+    if any(not isinstance(c, str) for l in frames for c in l[2]):
+        cls.append('numeric_column_labels')
+    if any(len(set(l[2])) < len(l[2]) for l in frames):
+        cls.append('duplicate_column_labels')
+    if any(_opts(l).get('intcols') for l in frames):
+        cls.append('int_column_in_frame')
+    if any(not isinstance(k, str) for k in _dict_keys(spec['tree'])):
+        cls.append('numeric_dict_keys')
+    sizes = _list_sizes(spec['tree'], True, spec.get('npos') if spec['call'] == 'presync' else None)
+    if target is not None and len(target) >= 1 and len(target) in sizes:
+        cls.append('index_length_equals_member_count')
+        if isinstance(join, list) and join[0] in ('idx', 'series', 'member', 'member_index'):
+            cls.append('explicit_index_as_long_as_the_list')
+    if spec.get('kw'):
+        cls.append('keyword_call')
+    return cls
 
 
 # ============================================================================================ run: df_index / df_reindex / df_sync
@@ -621,26 +788,28 @@ def run_sync(spec):
     from pyg_base import df_sync, df_reindex, df_index
     tree, join, method, fn = spec['tree'], spec['join'], spec['method'], spec['call']
     objs = _build_case(spec)
-    jarg = _build_join(join)
+    jarg = _build_join(join, tree, objs)
     leaves = _ts_leaves(tree)
     target = _exp_index(join, [l[1] for l in leaves])
     what = _describe(spec)
     ctx = None
+    kw = bool(spec.get('kw'))
     if fn == 'df_index':
-        res = call(what, df_index, objs, jarg)
+        res = call(what, df_index, seq=objs, index=jarg) if kw else call(what, df_index, objs, jarg)
         if target is not None:
             check(res is not None and hasattr(res, '__len__') and len(res) == len(target) and all(g == AXIS[p] for g, p in zip(list(res), target)),
                   '%s returned %s, expected %s', what, res, [str(AXIS[p]) for p in target])
     else:
         if fn == 'df_reindex':
-            res = call(what, df_reindex, objs, jarg, method)
+            res = call(what, df_reindex, ts=objs, index=jarg, method=method) if kw else call(what, df_reindex, objs, jarg, method)
             cols = None
         else:
-            res = call(what, df_sync, objs, jarg, method, spec['columns'])
+            res = (call(what, df_sync, dfs=objs, columns=spec['columns'], method=method, join=jarg) if kw
+                   else call(what, df_sync, objs, jarg, method, spec['columns']))
             cols = _exp_cols(spec['columns'], [l[2] for l in leaves if l[0] == 'f' and len(l[2]) >= 2])
         ctx = _Ctx(what, target, method, cols)
         _cmp(tree, objs, res, ctx)
-    _verify_inputs(tree, objs, what)
+    _verify_all(tree, objs, what)
     return _classes(spec, leaves, target, ctx)
 
 
@@ -650,11 +819,45 @@ def _passthrough(p0=None, p1=None, p2=None, p3=None):
     return [p0, p1, p2, p3]
 
 
-def _shaped(sig, sink=None):
-    """the decorated function in one of four signature shapes; it reports what it received as [p0, p1, p2, p3]
-    (to `sink` when given, for the per-column mode, else as its result)"""
+_DEFAULTS = [None]
+
+
+def _defaults():
+    """declared defaults of the 'defaults' shape: containers and timeseries. A default is not an argument: it is not aligned, it does not take part
+    in the common index, and the function sees the very object"""
+    if _DEFAULTS[0] is None:
+        import pandas as pd
+        s1 = pd.Series([-1.0], index=pd.DatetimeIndex([AXIS[5]]))
+        s2 = pd.Series([-2.0], index=pd.DatetimeIndex([AXIS[11]]))
+        f3 = pd.DataFrame([[-3.0, -4.0], [-5.0, -6.0]], index=pd.DatetimeIndex([AXIS[0], AXIS[11]]), columns=['a', 'z'])
+        _DEFAULTS[0] = [None, s1, (s2, 'x'), {'a': f3, 'b': [s1]}]
+    return _DEFAULTS[0]
+
+
+def _verify_defaults(what):
+    d = _defaults()
+    f3 = d[3]['a']
+    ok = (list(d[1].index) == [AXIS[5]] and d[1].values.tolist() == [-1.0] and list(d[2][0].index) == [AXIS[11]] and d[2][0].values.tolist() == [-2.0]
+          and d[2][1] == 'x' and len(d[2]) == 2 and list(d[3].keys()) == ['a', 'b'] and d[3]['b'][0] is d[1] and len(d[3]['b']) == 1
+          and list(f3.index) == [AXIS[0], AXIS[11]] and list(f3.columns) == ['a', 'z'] and f3.values.tolist() == [[-3.0, -4.0], [-5.0, -6.0]])
+    if not ok:
+        raise Violation('%s modified a declared default of the decorated function: %s' % (what, short(d, 300)))
+
+
+_SIGS = {'named': 'f', 'varargs': 'f(p0, *rest)', 'varkw': 'f(p0, **kw)', 'var_both': 'f(*a, **kw)', 'kwonly': 'f(p0, *, p1, p2, p3)',
+         'defaults': 'f(p0, p1=<Series>, p2=(<Series>, "x"), p3={"a": <frame>, "b": [<Series>]})'}
+
+
+def _unpassed(sig, i):
+    """what the function must see for a parameter that was not passed"""
+    return _defaults()[i] if sig == 'defaults' else None
+
+
+def _shaped(sig, sink=None, tag=False):
+    """the decorated function in one of six signature shapes; it reports what it received as [p0, p1, p2, p3]
+    (to `sink` when given, for the per-column mode, else as its result; with `tag` it adds its own shape as a fifth element)"""
     def out(vals):
-        vals = (list(vals) + [None] * 4)[:4]
+        vals = (list(vals) + [None] * 4)[:4] + (['ran: ' + sig] if tag else [])
         if sink is None:
             return vals
         sink.append(vals)
@@ -668,27 +871,93 @@ def _shaped(sig, sink=None):
     elif sig == 'var_both':
         def f(*a, **kw):
             return out(list(a) + [kw.get('p%i' % i) for i in range(len(a), 4)])
+    elif sig == 'kwonly':
+        def f(p0=None, *, p1=None, p2=None, p3=None):
+            return out([p0, p1, p2, p3])
+    elif sig == 'defaults':
+        d = _defaults()
+
+        def f(p0=None, p1=d[1], p2=d[2], p3=d[3]):
+            return out([p0, p1, p2, p3])
     else:
         def f(p0=None, p1=None, p2=None, p3=None):
             return out([p0, p1, p2, p3])
     return f
 
 
-def _decorate(spec, f):
+_PROP = {'i': 'ij', 'o': 'oj', 'l': 'lj', 'r': 'rj'}
+_DECO = [None]     # while a session runs: the ONE parameterised presync decorator of the session and the functions it was applied to
+
+
+def _decorate(spec, f, tree=None, objs=None):
     """presync(f) configured as the spec says; returns (callable, extra call-time keywords)"""
     from pyg_base import presync
     join, method, how, columns = spec['join'], spec['method'], spec['how'], spec['columns']
-    jarg = _build_join(join)
+    jarg = _build_join(join, tree, objs)
+    if how == 'shared':
+        # one decorator object for the whole session, applied to (at most) one function per shape; this call reaches its policy through
+        # `via`: plain (the policy the decorator was built with), call-time keywords, or the .oj/.ffill properties (which must not touch the object)
+        if _DECO[0] is None:
+            d = spec['deco']
+            _DECO[0] = dict(D=presync(index=d['join'], method=d['method'], columns=False), g={})
+        if spec['sig'] not in _DECO[0]['g']:
+            _DECO[0]['g'][spec['sig']] = _DECO[0]['D'](f)
+        g = _DECO[0]['g'][spec['sig']]
+        if spec['via'] == 'call':
+            return g, dict(join=jarg, method=method)
+        if spec['via'] == 'call_join':
+            return g, dict(join=jarg)
+        if spec['via'] == 'prop':
+            g = getattr(g, _PROP[_jkind(join)])
+            if spec.get('prop_method'):
+                g = getattr(g, method)
+        return g, {}
+    opts = {}
+    if spec.get('default') is not None:
+        opts['default'] = spec['default']
+    extra = {}
+    if spec.get('columns_call'):
+        # the column policy arrives at call time; the constructor is given another one (or none), which must lose
+        extra['columns'] = columns
+        if spec['columns_call'] != 'unset':
+            opts['columns'] = spec['columns_call']
+    else:
+        opts['columns'] = columns
     if how == 'ctor':
-        return presync(f, index=jarg, method=method, columns=columns), {}
+        return presync(f, index=jarg, method=method, **opts), extra
     if how == 'call':
-        return presync(f, columns=columns), dict(join=jarg, method=method)
+        return presync(f, **opts), dict(extra, join=jarg, method=method)
     # properties
-    g = presync(f, columns=columns)
-    g = getattr(g, {'i': 'ij', 'o': 'oj', 'l': 'lj', 'r': 'rj'}[_jkind(join)])
+    g = presync(f, **opts)
+    g = getattr(g, _PROP[_jkind(join)])
     if method is not None:
         g = getattr(g, method)
-    return g, {}
+    return g, extra
+
+
+def _how_note(spec):
+    out = ''
+    if spec.get('columns_call'):
+        out += ' [columns=%s given at call time, constructor columns: %s]' % (spec['columns'], spec['columns_call'])
+    if spec.get('default') is not None:
+        out += ' [default=%s]' % spec['default']
+    if spec.get('how') == 'shared':
+        out += ' [one decorator object presync(index=%s, method=%s, columns=False) for the session; this call via %s]' % (
+            spec['deco']['join'], spec['deco']['method'], spec['via'] + ('+method property' if spec.get('prop_method') else ''))
+    return out
+
+
+def _presync_classes(spec, kids):
+    cls = []
+    if spec.get('columns_call'):
+        cls.append('columns_given_at_call_time')
+    if spec.get('default') is not None:
+        cls.append('default=given')
+    if spec.get('sig') == 'defaults' and len(kids) < 4:
+        cls.append('timeseries_in_an_unpassed_declared_default')
+    if spec.get('sig') == 'kwonly' and any(_ts_leaves(c) for c in kids[1:]):
+        cls.append('timeseries_through_keyword_only_parameter')
+    return cls
 
 
 def run_presync(spec):
@@ -703,21 +972,30 @@ def run_presync(spec):
     what = 'presync(f, %s)(%i positional, %s)  [join=%s method=%s columns=%s tree=%s]' % (
         spec['how'], npos, sorted(kwargs), join, method, spec['columns'], _sketch(tree))
     sig = spec.get('sig', 'named')
-    what = what.replace('presync(f,', 'presync(%s,' % {'named': 'f', 'varargs': 'f(p0, *rest)', 'varkw': 'f(p0, **kw)', 'var_both': 'f(*a, **kw)'}[sig], 1)
-    g, extra = _decorate(spec, _shaped(sig))
+    what = what.replace('presync(f,', 'presync(%s,' % _SIGS[sig], 1) + _how_note(spec)
+    shared = spec['how'] == 'shared'
+    g, extra = _decorate(spec, _shaped(sig, None, shared), tree, objs)
     kw = dict(kwargs)
     kw.update(extra)
     res = call(what, g, *args, **kw)
+    if shared:
+        # one decorator object was applied to one function per shape: the function that ran must be the one this wrapper was made from
+        check(isinstance(res, list) and len(res) == 5 and res[4] == 'ran: ' + sig, '%s: expected the result of the function of shape %s, got %s', what, sig, res)
+        res = res[:4]
     check(isinstance(res, list) and len(res) == 4, '%s: the function result came back as %s', what, res)
     ctx = _Ctx(what, target, method, None)
     for i, c in enumerate(kids):
         _cmp(c, objs[i], res[i], ctx, 'p%i' % i)
     for i in range(len(kids), 4):
-        check(res[i] is None, '%s: parameter p%i was not passed but the function saw %s', what, i, res[i])
-    _verify_inputs(tree, objs, what)
+        if res[i] is not _unpassed(sig, i):
+            raise Violation('%s: parameter p%i was not passed but the function saw %s, expected its declared default' % (what, i, short(res[i], 120)))
+    _verify_all(tree, objs, what)
+    if sig == 'defaults':
+        _verify_defaults(what)
     info = _classes(spec, leaves, target, ctx)
     info['cls'] += ['how=' + spec['how'], 'mode=%s' % ('raw' if spec['columns'] is False else 'cols'),
                     'npos=%i/%i' % (npos, len(kids)) if npos in (0, len(kids)) else 'mixed_positional_keyword', 'sig=' + sig]
+    info['cls'] += _presync_classes(spec, kids)
     if sig in ('varargs', 'var_both') and npos >= 2 and any(l for c in kids[1:npos] for l in _ts_leaves(c)):
         info['cls'].append('timeseries_through_*args')
     if sig in ('varkw', 'var_both') and any(l for c in kids[max(npos, 1):] for l in _ts_leaves(c)):
@@ -740,8 +1018,8 @@ def run_presync_cols(spec):
         spec['how'], npos, sorted(kwargs), join, method, columns, _sketch(tree))
     calls = []
     sig = spec.get('sig', 'named')
-    what = what.replace('presync(f,', 'presync(%s,' % {'named': 'f', 'varargs': 'f(p0, *rest)', 'varkw': 'f(p0, **kw)', 'var_both': 'f(*a, **kw)'}[sig], 1)
-    g, extra = _decorate(spec, _shaped(sig, calls))
+    what = what.replace('presync(f,', 'presync(%s,' % _SIGS[sig], 1) + _how_note(spec)
+    g, extra = _decorate(spec, _shaped(sig, calls), tree, objs)
     kw = dict(kwargs)
     kw.update(extra)
     call(what, g, *args, **kw)
@@ -780,7 +1058,11 @@ def run_presync_cols(spec):
             cols, idx, rows = node[2], node[1], node[3]
             where = '%s, call for column %r, at %s' % (what, col, path)
             if len(cols) >= 2 and col not in cols:
-                check(isinstance(got, float) and got != got, '%s: the frame lacks the column, expected the default NaN, the function saw %s', where, got)
+                dflt = spec.get('default')
+                if dflt is None:
+                    check(isinstance(got, float) and got != got, '%s: the frame lacks the column, expected the default NaN, the function saw %s', where, got)
+                else:
+                    check(isinstance(got, float) and got == dflt, '%s: the frame lacks the column, expected the default=%s given to presync, the function saw %s', where, dflt, got)
                 return
             j = 0 if len(cols) == 1 else cols.index(col)
             check(isinstance(got, pd.Series), '%s: expected one column as a Series, the function saw %s', where, type(got).__name__)
@@ -789,11 +1071,11 @@ def run_presync_cols(spec):
             ctx.filled += filled
             _check_column(where, got.values.tolist(), exp)
         elif t in ('list', 'tuple'):
-            check(type(got) is type(orig) and len(got) == len(orig), '%s at %s: a %s of %s came back as %s', what, path, type(orig).__name__, len(orig), short(got, 80))
+            check(type(got) is type(orig) and len(got) == len(orig), '%s at %s: a %s of %s came back as %s', what, path, type(orig).__name__, len(orig), got)
             for i, c in enumerate(node[1]):
                 cmpcol(c, orig[i], got[i], col, '%s[%i]' % (path, i))
         elif t in ('dict', 'Dict'):
-            check(type(got) is type(orig) and sorted(got.keys()) == sorted(orig.keys()), '%s at %s: container came back as %s', what, path, short(got, 80))
+            check(type(got) is type(orig) and sorted(got.keys()) == sorted(orig.keys()), '%s at %s: container came back as %s', what, path, got)
             for k, c in node[1]:
                 cmpcol(c, orig[k], got[k], col, '%s[%r]' % (path, k))
         else:
@@ -807,15 +1089,24 @@ def run_presync_cols(spec):
                 col = colname(c, got[i])
                 if col is not None:
                     break
-            check(col is not None, '%s: a call shows no column of any multi-column frame: %s', what, short(got, 200))
+            check(col is not None, '%s: a call shows no column of any multi-column frame: %s', what, got)
             check(col in expcols and col not in seen, '%s: calls for columns %s then %r, expected exactly one call per column of %s', what, seen, col, expcols)
             seen.append(col)
         for i, c in enumerate(kids):
             cmpcol(c, objs[i], got[i], col, 'p%i' % i)
-    _verify_inputs(tree, objs, what)
+        for i in range(len(kids), 4):
+            if got[i] is not _unpassed(sig, i):
+                raise Violation('%s, call for column %r: parameter p%i was not passed but the function saw %s, expected its declared default'
+                                % (what, col, i, short(got[i], 120)))
+    _verify_all(tree, objs, what)
+    if sig == 'defaults':
+        _verify_defaults(what)
     ctx.what = what
     info = _classes(spec, leaves, target, ctx)
     info['cls'] += ['how=' + spec['how'], 'ncalls=%i' % min(len(calls), 3), 'sig=' + sig]
+    info['cls'] += _presync_classes(spec, kids)
+    if spec.get('default') is not None and any(l[0] == 'f' and len(l[2]) >= 2 and any(c not in l[2] for c in expcols if c is not None) for l in leaves):
+        info['cls'].append('default_shown_for_a_lacking_column')
     if multi and len(set(tuple(c) for c in multi)) == 1:
         info['cls'].append('all_frames_same_columns')
     if expcols == []:
@@ -878,11 +1169,11 @@ def _cmp_arrs(node, orig, res, n, method, what, path='result'):
     if t == 'v':
         check(res is orig, '%s: the non-array member %s came back as %s (not the same object)', where, orig, res)
     elif t in ('list', 'tuple'):
-        check(type(res) is type(orig) and len(res) == len(orig), '%s: a %s of %s came back as %s', where, type(orig).__name__, len(orig), short(res, 80))
+        check(type(res) is type(orig) and len(res) == len(orig), '%s: a %s of %s came back as %s', where, type(orig).__name__, len(orig), res)
         for i, c in enumerate(node[1]):
             _cmp_arrs(c, orig[i], res[i], n, method, what, '%s[%i]' % (path, i))
     elif t in ('dict', 'Dict'):
-        check(type(res) is type(orig) and sorted(res.keys()) == sorted(orig.keys()), '%s: container came back as %s', where, short(res, 80))
+        check(type(res) is type(orig) and sorted(res.keys()) == sorted(orig.keys()), '%s: container came back as %s', where, res)
         for k, c in node[1]:
             _cmp_arrs(c, orig[k], res[k], n, method, what, '%s[%r]' % (path, k))
     else:
@@ -919,7 +1210,7 @@ def run_arrays(spec):
             res = call(what, df_sync, objs, join, method)
         if n is not None:
             _cmp_arrs(tree, objs, res, n, method, what)
-    _verify_inputs(tree, objs, what)
+    _verify_all(tree, objs, what)
     cls = ['call=' + fn, 'join=' + join[0].lower(), 'method=%s' % method, 'depth>=2' if _depth(tree) >= 2 else 'depth<2']
     if any(len(l[2]) == 2 for l in leaves):
         cls.append('2d')
@@ -944,7 +1235,7 @@ def _val(k, j, p):
     return float((k + 1) * 100 + j * 30 + p) + (0.5 if p % 2 else 0.0)
 
 
-FAMILIES = ['twin', 'same_len', 'same_ends', 'prefix', 'suffix', 'subset', 'superset', 'copy']
+FAMILIES = ['twin', 'same_len', 'same_ends', 'prefix', 'suffix', 'subset', 'superset', 'copy', 'disjoint']
 
 
 def _derive(draw, base, kind):
@@ -955,6 +1246,12 @@ def _derive(draw, base, kind):
     Falls back to the nearest feasible kind when `base` is too short / leaves no room.
     """
     n = len(base)
+    if kind == 'disjoint':
+        unused = [c for c in range(N) if c not in base]
+        if unused:
+            m = draw(st.integers(1, len(unused)))
+            return sorted(list(draw(st.permutations(unused)))[:m])          # no stamp in common with the base (an inner join on it is empty)
+        kind = 'subset'
     if kind == 'twin' or kind == 'same_ends':
         if n >= 2:
             first, last = base[0], base[-1]
@@ -1038,7 +1335,7 @@ def _idx(draw, state):
     return draw(_free_idx())
 
 
-_family = st.sampled_from([None] * 6 + ['twin', 'twin', 'twin', 'same_len', 'same_ends', 'prefix', 'suffix', 'subset', 'superset'])
+_family = st.sampled_from([None] * 6 + ['twin', 'twin', 'twin', 'same_len', 'same_ends', 'prefix', 'suffix', 'subset', 'superset', 'disjoint'])
 
 
 def _mask(draw, n, mode):
@@ -1049,27 +1346,63 @@ def _mask(draw, n, mode):
     return [x == 0 for x in draw(st.lists(st.integers(0, 3), min_size=n, max_size=n))]
 
 
+_UNITS = ['s', 'ms', 'us', 'ns']
+_INT_LABEL = {'a': 0, 'b': 1, 'c': 2, 'd': 10, 'q': 7}      # numbers-only column labels (10 sorts before 2 as text, after it as a number)
+_INT_KEYS = [0, 1, 2, 3, 10, -1]
+
+
+@st.composite
+def _flavour(draw, dupcols_allowed=False):
+    """case-wide switches of the round-4 input classes (each off in most cases, so the earlier distribution is kept):
+    units    - every timeseries (and explicit target) draws the resolution of its DatetimeIndex from s / ms / us / ns;
+    dups     - a later timeseries may be a verbatim repeat of an earlier one (one object handed in several times when spec['same_objects']);
+    colpool  - 'int': every column label of the case is an integer;
+    dupcols  - (only where no column policy acts) frames may repeat a column label;
+    intcol   - multi-column frames may have an int64 column"""
+    return dict(units=draw(st.integers(0, 5)) == 0, dups=draw(st.integers(0, 3)) == 0, colpool='int' if draw(st.integers(0, 6)) == 0 else 'str',
+                dupcols=bool(dupcols_allowed) and draw(st.integers(0, 3)) == 0, intcol=draw(st.integers(0, 3)) == 0, leaves=[])
+
+
+def _finish_leaf(draw, state, leaf):
+    if state.get('units'):
+        leaf = leaf[:4] + [dict(_opts(leaf), unit=draw(st.sampled_from(_UNITS)))]
+    state.setdefault('leaves', []).append(leaf)
+    return leaf
+
+
 @st.composite
 def _ts_leaf(draw, state, kinds):
     k = state['k']
     state['k'] += 1
+    earlier = state.get('leaves') or []
+    if state.get('dups') and earlier and draw(st.integers(0, 2)) == 0:
+        leaf = copy.deepcopy(earlier[draw(st.integers(0, len(earlier) - 1))])       # the same timeseries once more
+        state['prev'].append(list(leaf[1]))
+        earlier.append(leaf)
+        return leaf
     idx = draw(_idx(state))
     state['prev'].append(idx)
     n = len(idx)
     kind = draw(st.sampled_from(kinds))
+    label = (lambda c: _INT_LABEL[c]) if state.get('colpool') == 'int' else (lambda c: c)
     if kind == 's':
         mode = draw(st.sampled_from(['float', 'float', 'float', 'float', 'nonan', 'int', 'allnan']))
         if mode == 'int':
-            return ['s', idx, [(k + 1) * 100 + p for p in idx], 'int']
+            return _finish_leaf(draw, state, ['s', idx, [(k + 1) * 100 + p for p in idx], 'int'])
         m = _mask(draw, n, {'float': 'some', 'nonan': 'none', 'allnan': 'all'}[mode])
-        return ['s', idx, [None if m[i] else _val(k, 0, p) for i, p in enumerate(idx)], 'float']
+        return _finish_leaf(draw, state, ['s', idx, [None if m[i] else _val(k, 0, p) for i, p in enumerate(idx)], 'float'])
     if kind == 'f1':
-        name = draw(st.sampled_from(['a', 'q']))
+        name = label(draw(st.sampled_from(['a', 'q'])))
         m = _mask(draw, n, draw(st.sampled_from(['some', 'some', 'none'])))
-        return ['f', idx, [name], [[None if m[i] else _val(k, 0, p)] for i, p in enumerate(idx)]]
+        return _finish_leaf(draw, state, ['f', idx, [name], [[None if m[i] else _val(k, 0, p)] for i, p in enumerate(idx)]])
     ncols = draw(st.integers(2, 3))
     cols = list(draw(st.one_of(st.sampled_from([['a', 'b'], ['b', 'a'], ['a', 'b', 'c'], ['b', 'c'], ['c', 'd'], ['b', 'c', 'd'], ['a', 'b', 'd'], ['a', 'c', 'd']]),
                                st.permutations(_COLS).map(lambda c: list(c)[:ncols]))))
+    if state.get('dupcols') and draw(st.booleans()):
+        i = draw(st.integers(0, len(cols) - 1))
+        j = draw(st.integers(0, len(cols) - 2))
+        cols[j if j < i else j + 1] = cols[i]                                          # one label occurs twice
+    cols = [label(c) for c in cols]
     mode = draw(st.sampled_from(['rows', 'cells', 'cells', 'none']))
     if mode == 'rows':
         m = _mask(draw, n, 'some')
@@ -1081,7 +1414,13 @@ def _ts_leaf(draw, state, kinds):
             rows.append([None if m[j] else _val(k, j, p) for j in range(len(cols))])
     else:
         rows = [[_val(k, j, p) for j in range(len(cols))] for p in idx]
-    return ['f', idx, cols, rows]
+    leaf = ['f', idx, cols, rows]
+    if state.get('intcol') and draw(st.integers(0, 2)) == 0:
+        j = draw(st.integers(0, len(cols) - 1))
+        for i, p in enumerate(idx):
+            rows[i][j] = (k + 1) * 100 + j * 30 + p                                    # an int64 column (so no NaN in it)
+        leaf.append({'intcols': [j]})
+    return _finish_leaf(draw, state, leaf)
 
 
 _scalar = st.one_of(st.none(), st.integers(-3, 6), st.sampled_from([-1.5, 0.0, 2.5]), st.sampled_from(['', 'a', 'not a timeseries']))
@@ -1105,6 +1444,8 @@ def _container(draw, state, depth, max_depth, kinds, leaf, types, lo, hi):
     if t in ('list', 'tuple'):
         return [t, kids]
     keys = list(draw(st.permutations(_KEYS)))[:n]
+    if draw(st.integers(0, 5)) == 0:
+        keys = list(draw(st.permutations(_INT_KEYS)))[:n]          # a dict keyed by numbers only
     return [t, [[k, c] for k, c in zip(keys, kids)]]
 
 
@@ -1141,6 +1482,39 @@ def _right_when_last_shares(draw, tree, join):
     return join
 
 
+def _round4_join(draw, state, tree, join, npos=None):
+    """explicit targets of the round-4 classes: with state['units'] the target draws its own resolution; now and then an operand itself (or its
+    .index object) is handed in as the target; now and then the target has exactly as many stamps as a list of operands has members"""
+    if not isinstance(join, list) or join[0] not in ('idx', 'series'):
+        return join
+    leaves = _ts_leaves(tree)
+    r = draw(st.integers(0, 9))
+    if r <= 1 and leaves:
+        return ['member' if draw(st.booleans()) else 'member_index', draw(st.integers(0, len(leaves) - 1))]
+    if r == 2:
+        sizes = [m for m in _list_sizes(tree, True, npos) if m >= 1]
+        if sizes:
+            m = sizes[draw(st.integers(0, len(sizes) - 1))]
+            join = [join[0], sorted(list(draw(st.permutations(list(range(N)))))[:m])]
+    if state.get('units'):
+        join = [join[0], join[1], draw(st.sampled_from(_UNITS))]
+    return join
+
+
+def _left_right_when_repeated(draw, spec):
+    """one object handed in several times: when it is the last (first) timeseries and comes earlier (later) too, half of the cases use a right (left) join"""
+    if not spec.get('same_objects'):
+        return spec
+    leaves = _ts_leaves(spec['tree'])
+    keys = [json.dumps(l) for l in leaves]
+    if len(set(tuple(l[1]) for l in leaves)) < 2:
+        return spec
+    opts = (['r'] if keys[-1] in keys[:-1] else []) + (['l'] if keys[0] in keys[1:] else [])
+    if opts and draw(st.booleans()):
+        return dict(spec, join=_SPELL[opts[draw(st.integers(0, len(opts) - 1))]][draw(st.booleans())])
+    return spec
+
+
 def _target_like_first(draw, state, tree, join):
     """in a family case half of the explicit targets share the family fingerprint with the first timeseries (same length and endpoints, nested, ...)"""
     leaves = _ts_leaves(tree)
@@ -1154,20 +1528,29 @@ def _sync_case(draw):
     fn = draw(st.sampled_from(['df_sync', 'df_sync', 'df_sync', 'df_reindex', 'df_reindex', 'df_index']))
     join = draw(_join())
     method = draw(st.sampled_from(METHODS))
+    columns = draw(st.sampled_from(['ij', 'ij', 'inner', 'oj', 'outer', 'lj', 'rj', None, False]))
     state = dict(k=0, prev=[], family=draw(_family))
+    state.update(draw(_flavour(dupcols_allowed=fn != 'df_sync' or columns is None or columns is False)))
     types = ['list', 'list', 'dict', 'dict', 'Dict'] + (['tuple'] if fn == 'df_sync' else [])
     tree = draw(_container(state, 1, 3, _ALL, _ts_leaf, types, 1, 4))
-    join = _right_when_last_shares(draw, tree, _target_like_first(draw, state, tree, join))
+    join = _right_when_last_shares(draw, tree, _round4_join(draw, state, tree, _target_like_first(draw, state, tree, join)))
+    if state['family'] == 'disjoint' and draw(st.booleans()):
+        join = _SPELL['i'][draw(st.booleans())]              # every index is disjoint from the first one: half of these cases ask for the (empty) intersection
     spec = dict(call=fn, tree=tree, join=join, method=method, share_index=draw(st.booleans()))
     if fn == 'df_sync':
-        spec['columns'] = draw(st.sampled_from(['ij', 'ij', 'inner', 'oj', 'outer', 'lj', 'rj', None, False]))
-    return _repair(spec)
+        spec['columns'] = columns
+    if state['dups']:
+        spec['same_objects'] = draw(st.integers(0, 3)) != 0
+    if draw(st.integers(0, 7)) == 0:
+        spec['kw'] = True
+    return _repair(_left_right_when_repeated(draw, spec))
 
 
 @st.composite
 def _asof_case(draw):
     fam = draw(_family)
     state = dict(k=0, prev=[], family=fam)
+    state.update(draw(_flavour(dupcols_allowed=True)))
     leaf = draw(_ts_leaf(state, _ALL))
     if fam is not None:
         # the explicit target shares a fingerprint with the object's own index (same length and endpoints, same prefix, nested, ...)
@@ -1175,6 +1558,8 @@ def _asof_case(draw):
     else:
         join = draw(st.one_of(_positions().map(lambda p: ['idx', p]), _positions().map(lambda p: ['idx', p]),
                               _positions().map(lambda p: ['series', p]), st.sampled_from(['ij', 'oj'])))
+    if state['units'] and isinstance(join, list):
+        join = [join[0], join[1], draw(st.sampled_from(_UNITS))]
     return _repair(dict(call='df_reindex', tree=leaf, join=join, method=draw(st.sampled_from(['ffill', 'bfill']))))
 
 
@@ -1185,30 +1570,48 @@ def _presync_case(draw, frames_in_col_mode=False):
     method = draw(st.sampled_from(METHODS))
     state = dict(k=0, prev=[], family=draw(_family))
     if frames_in_col_mode:
+        state.update(draw(_flavour()))
         raw = False
         kinds = ['s', 'f', 'f', 'f', 'f1']
         columns = draw(st.sampled_from(['inner', 'ij', 'oj', 'outer', 'lj', 'rj']))
     else:
         raw = draw(st.booleans())
+        state.update(draw(_flavour(dupcols_allowed=raw)))
         kinds = _ALL if raw else ['s']
         columns = False if raw else draw(st.sampled_from(['inner', 'ij', 'oj']))
     tree = draw(_container(state, 1, 3, kinds, _ts_leaf, ['list'], 1, 4))
     kids = tree[1]
-    join = _right_when_last_shares(draw, tree, _target_like_first(draw, state, tree, join))
+    npos = draw(st.integers(0, len(kids)))
+    # the shape of the decorated function: named parameters, *args / **kwargs collecting some of the arguments, keyword-only parameters,
+    # or declared defaults that are containers / timeseries
+    sig = draw(st.sampled_from(['named', 'named', 'named', 'varargs', 'varkw', 'var_both']))
+    r = draw(st.integers(0, 9))
+    if r <= 1:
+        sig = ['kwonly', 'defaults'][r]
+    if sig == 'defaults' and len(kids) == 4:
+        sig = 'named'                      # every parameter is passed: no default would be seen
+    if sig == 'varargs':
+        npos = len(kids)                   # everything after p0 can only arrive positionally
+    elif sig in ('varkw', 'kwonly'):
+        npos = min(npos, 1)                # everything after p0 can only arrive by keyword
+    join = _right_when_last_shares(draw, tree, _round4_join(draw, state, tree, _target_like_first(draw, state, tree, join), npos))
     single = [i for i, c in enumerate(kids) if c[0] in ('s', 'f')]
     if how != 'prop' and single and draw(st.integers(0, 5)) == 0:
         join = ['arg', single[draw(st.integers(0, len(single) - 1))]]
-    npos = draw(st.integers(0, len(kids)))
-    # the shape of the decorated function: named parameters, or *args / **kwargs collecting some of the arguments
-    sig = draw(st.sampled_from(['named', 'named', 'named', 'varargs', 'varkw', 'var_both']))
-    if join[0] == 'arg' and not (sig in ('varargs', 'varkw') and join[1] == 0):
-        sig = 'named'                      # index='p<i>' names a declared parameter
-    if sig == 'varargs':
-        npos = len(kids)                   # everything after p0 can only arrive positionally
-    elif sig == 'varkw':
-        npos = min(npos, 1)                # everything after p0 can only arrive by keyword
+    if join[0] == 'arg' and (sig == 'var_both' or (sig in ('varargs', 'varkw') and join[1] != 0)):
+        sig, npos = 'named', draw(st.integers(0, len(kids)))                      # index='p<i>' names a declared parameter
     spec = dict(call='presync', tree=tree, join=join, method=method, columns=columns, how=how, npos=npos, sig=sig, share_index=draw(st.booleans()))
-    return _repair(spec)
+    if state['dups']:
+        spec['same_objects'] = draw(st.integers(0, 3)) != 0
+    r = draw(st.integers(0, 5))
+    if r == 0:
+        # the column policy is given at call time; the constructor gets no policy, or a different one that must lose
+        spec['columns_call'] = draw(st.sampled_from(['unset'] + [c for c in ('ij', 'oj', 'lj', 'rj') if c[0] != str(columns)[0]]))
+    if frames_in_col_mode:
+        d = draw(st.sampled_from([None, None, None, 0.0, 1.0, -1.5]))
+        if d is not None:
+            spec['default'] = d
+    return _repair(_left_right_when_repeated(draw, spec))
 
 
 @st.composite
@@ -1246,15 +1649,28 @@ def _arrays_case(draw, maxlen=6):
 
 @st.composite
 def _session_case(draw):
-    """3-4 timeseries built ONCE; 2-4 calls of df_index / df_reindex / df_sync / a presync function on ordered selections of those same objects,
-    half of the selections a prefix or an extension of the previous one, mostly under one join policy"""
+    """3-4 operands (timeseries, now and then a small dict / list of them) built ONCE; 2-4 calls of df_index / df_reindex / df_sync / a presync function on
+    ordered selections of those same objects, half of the selections a prefix or an extension of the previous one, mostly under one join policy.
+    In half of the sessions the containers are built once too (the caller hands the same list / dict object to several calls in a row), and the presync
+    calls of a session go through ONE parameterised decorator object presync(index=.., method=.., columns=False), applied to one function per shape
+    and reached plainly, with call-time join= / method= keywords, or through the .oj / .ffill properties"""
     state = dict(k=0, prev=[], family=draw(_family))
+    state.update(draw(_flavour()))
+    state['dups'] = False                  # in a session equal leaf specs ARE one object: repeats come from the selections
     n = draw(st.integers(3, 4))
-    pool = [draw(_ts_leaf(state, ['s', 's', 's', 'f'])) for _ in range(n)]
+    pool = []
+    for _ in range(n):
+        if draw(st.integers(0, 4)) == 0:
+            pool.append(draw(_container(state, 2, 2, ['s', 's', 's', 'f'], _ts_leaf, ['list', 'dict', 'dict', 'Dict'], 1, 2)))
+        else:
+            pool.append(draw(_ts_leaf(state, ['s', 's', 's', 'f'])))
     k0 = draw(st.sampled_from(['i', 'o', 'l', 'r']))
-    calls, prev = [], None
+    deco = dict(join=_SPELL[k0][draw(st.booleans())], method=draw(st.sampled_from(METHODS)))
+    shared_deco = draw(st.integers(0, 3)) != 0
+    share_containers = draw(st.booleans())
+    calls, prev, overridden, last = [], None, None, None
     for _ in range(draw(st.integers(2, 4))):
-        how = draw(st.sampled_from(['prefix', 'prefix', 'extend', 'free', 'same'])) if prev else 'free'
+        how = draw(st.sampled_from(['prefix', 'prefix', 'extend', 'free', 'same'] + (['same'] if share_containers else []))) if prev else 'free'
         if how == 'prefix' and len(prev) >= 3:
             sel = prev[:draw(st.integers(2, len(prev) - 1))]
         elif how == 'extend' and len(prev) < n:
@@ -1263,30 +1679,94 @@ def _session_case(draw):
             sel = list(prev)
         else:
             sel = list(draw(st.permutations(list(range(n)))))[:draw(st.integers(2, n))]
+            if len(sel) < 4 and draw(st.integers(0, 4)) == 0:
+                sel = sel + [sel[draw(st.integers(0, len(sel) - 1))]]          # one operand object handed in twice
         prev = sel
         k = k0 if draw(st.integers(0, 3)) else draw(st.sampled_from(['i', 'o', 'l', 'r']))
         join = _SPELL[k][draw(st.booleans())]
-        fn = draw(st.sampled_from(['df_sync', 'df_reindex', 'df_index', 'presync']))
-        tree = ['list', [pool[i] for i in sel]]
+        fn = draw(st.sampled_from(['df_sync', 'df_reindex', 'df_index', 'presync'] + (['presync', 'presync'] if shared_deco else [])))
+        top = draw(st.sampled_from(['list', 'list', 'list', 'dict', 'tuple']))
         method = draw(st.sampled_from(METHODS))
+        via = draw(st.sampled_from(['plain', 'plain', 'call', 'call_join', 'prop', 'prop']))
+        pm = draw(st.booleans())
+        sig = draw(st.sampled_from(['named', 'named', 'var_both']))
+        other = [x for x in ['i', 'o', 'l', 'r'] if x != k0][draw(st.integers(0, 2))]
+        again = draw(st.integers(0, 3)) != 0
+        flip = draw(st.booleans())
+        if how == 'same' and last is not None and fn == 'presync' and again:
+            fn = ['df_reindex', 'df_index', 'df_sync'][draw(st.integers(0, 2))]
+        if how == 'same' and last is not None and fn != 'presync':
+            # the caller hands the very same container to the next call (with share_containers), half of the time asking for another policy
+            top = last[0]
+            if flip:
+                k = [x for x in ['i', 'o', 'l', 'r'] if x != last[1]][draw(st.integers(0, 2))]
+                join = _SPELL[k][draw(st.booleans())]
+        last = (top, k) if fn != 'presync' else None
         if fn == 'presync':
-            c = dict(call='presync', tree=tree, join=join, method=method, columns=False, how=draw(st.sampled_from(['ctor', 'call'])), npos=len(sel), sig='named')
+            tree = ['list', [pool[i] for i in sel]]
+            if shared_deco:
+                if overridden is not None and again:
+                    via, sig = 'plain', overridden                   # after an override, the same wrapper is mostly used plainly: its own policy must be back
+                overridden = sig if via != 'plain' else None
+                if via != 'plain' and draw(st.integers(0, 3)) != 0:
+                    join = _SPELL[other][draw(st.booleans())]         # an override that really asks for another policy than the decorator was built with
+                if via == 'plain':
+                    join, method = deco['join'], deco['method']
+                elif via == 'call_join':
+                    method = deco['method']
+                elif via == 'prop':
+                    pm = pm and method is not None
+                    if not pm:
+                        method = deco['method']
+                c = dict(call='presync', tree=tree, join=join, method=method, columns=False, how='shared', via=via, prop_method=pm, deco=deco, npos=len(sel), sig=sig)
+            else:
+                c = dict(call='presync', tree=tree, join=join, method=method, columns=False, how=draw(st.sampled_from(['ctor', 'call'])), npos=len(sel), sig='named')
         else:
+            if top == 'dict':
+                tree = ['dict', [['k%i' % j, pool[i]] for j, i in enumerate(sel)]]
+            elif top == 'tuple' and fn == 'df_sync':
+                tree = ['tuple', [pool[i] for i in sel]]
+            else:
+                tree = ['list', [pool[i] for i in sel]]
             c = dict(call=fn, tree=tree, join=join, method=method)
             if fn == 'df_sync':
                 c['columns'] = draw(st.sampled_from(['ij', 'oj', False]))
         calls.append(dict(sel=sel, call=_repair(c)))
-    return dict(calls=calls, share_index=draw(st.booleans()))
+    return dict(calls=calls, share_index=draw(st.booleans()), share_containers=share_containers)
 
 
 def run_session(spec):
     _OBJECTS[0] = {}
+    _CONTAINERS[0] = {} if spec.get('share_containers') else None
+    _SNAPS[0] = []
+    _SESSION[0] = True
+    _DECO[0] = None
     shared = {} if spec.get('share_index') else None
     try:
+        trees, vias, sigs, r4 = [], [], set(), set()
+        again = other_policy = False
+        before = None
         for c in spec['calls']:
             sub = dict(c['call'], share_index=False)
-            _SHARED[0] = shared             # the index objects too live for the whole session (_build_case resets the slot: objects are cached, so only new leaves ask)
-            (run_presync if sub['call'] == 'presync' else run_sync)(sub)
+            _SHARED[0] = shared             # the index objects too live for the whole session (objects are cached, so only new leaves ask)
+            key = json.dumps(sub['tree'])
+            if _CONTAINERS[0] is not None and sub['call'] != 'presync' and sub['tree'][0] != 'tuple' and key in trees:
+                again = True
+                if before is not None and before[0] == key and before[1] != _jkind(sub['join']):
+                    other_policy = True          # the very container of the previous call, now under another join policy
+            before = (key, _jkind(sub['join'])) if sub['call'] != 'presync' else None
+            inner = [json.dumps(x) for x in sub['tree'][1]] if sub['tree'][0] != 'dict' else [json.dumps(x[1]) for x in sub['tree'][1]]
+            if _CONTAINERS[0] is not None and any(x in _CONTAINERS[0] for x in inner):
+                again = True
+            if sub['call'] != 'presync':
+                trees.append(key)
+            info = (run_presync if sub['call'] == 'presync' else run_sync)(sub)
+            r4 |= set(info['cls']) & _R4_IN_SESSION
+            if sub.get('how') == 'shared':
+                vias.append(sub['via'])
+                sigs.add(sub['sig'])
+            else:
+                vias.append(None)
         sels = [c['sel'] for c in spec['calls']]
         rel = set()
         for a, b in zip(sels, sels[1:]):
@@ -1295,27 +1775,47 @@ def run_session(spec):
             if a == b:
                 rel.add('same_operands_again')
         fns = [c['call']['call'] for c in spec['calls']]
-        cls = ['calls=%i' % len(fns)] + sorted(rel)
+        cls = ['calls=%i' % len(fns)] + sorted(rel) + sorted(r4)
         if len(set(fns)) > 1:
             cls.append('different_entry_points_share_operands')
         if len(set(_jkind(c['call']['join']) for c in spec['calls'])) == 1:
             cls.append('one_join_policy_throughout')
+        if again:
+            cls.append('same_container_object_passed_again')
+        if other_policy:
+            cls.append('same_container_object_again_under_another_policy')
+        used = [v for v in vias if v is not None]
+        if len(used) >= 2:
+            cls.append('one_decorator_object_for_several_calls')
+            if any(v in ('call', 'call_join', 'prop') for v in used[:-1]):
+                cls.append('decorator_used_again_after_an_override')
+        if len(sigs) >= 2:
+            cls.append('one_decorator_applied_to_two_functions')
         return dict(nt=bool(rel - {'same_operands_again'}), cls=cls)
     finally:
         _OBJECTS[0] = None
+        _CONTAINERS[0] = None
         _SHARED[0] = None
+        _SESSION[0] = False
+        _DECO[0] = None
+
+
+_R4_IN_SESSION = {'mixed_datetime_units', 'same_object_passed_twice', 'numeric_column_labels', 'int_column_in_frame', 'numeric_dict_keys'}
 
 
 # ============================================================================================ registration
 
 _RULE_TS = ('timeseries = float Series (NaN sprinkled / none / all NaN), int Series, frames with 2-3 columns out of a,b,c,d (NaN by row, by cell, none) and '
             'single-column frames, each on a sorted subset (contiguous run, arbitrary subset, empty, or derived from an earlier index) of a 12-stamp irregular axis; in ~60% of the cases EVERY index derives from the first one by one fast-path fingerprint (twin = same length, same first/last stamp, different interior; same length; same endpoints; same first/last k stamps; proper subset / superset; copy), and explicit targets share it half of the time; '
-            'cell values unique per object/column/stamp; in half of the cases timeseries with equal stamps share ONE index object (a third of the later series repeat the stamps of an earlier, non-adjacent one; half of the trees whose last series does so are aligned with a right join); ')
+            'cell values unique per object/column/stamp; in half of the cases timeseries with equal stamps share ONE index object (a third of the later series repeat the stamps of an earlier, non-adjacent one; half of the trees whose last series does so are aligned with a right join); '
+            'in a minority of cases each: the DatetimeIndex resolutions (s/ms/us/ns) differ between operands and target; a timeseries is repeated verbatim (ONE object handed in several times, or equal distinct objects; left / right joins when the first / last one is the repeat); '
+            'all column labels are integers; a frame has an int64 column; a frame repeats a column label (only where no column policy acts); dicts are keyed by integers; ')
 
 SUBS = [
     Sub('sync', lambda tier: _sync_case(), run_sync, quick=1600, thorough=12000,
         rule=_RULE_TS + 'trees of list/dict/Dict (top-level tuple for df_sync) to depth 3 with 1-4 members per level mixing timeseries and None/int/float/str; '
-             'df_sync / df_reindex / df_index with join in ij,oj,lj,rj (two spellings), explicit DatetimeIndex, Series as index; method None/ffill/bfill; '
+             'df_sync / df_reindex / df_index (positional or keyword call) with join in ij,oj,lj,rj (two spellings), explicit DatetimeIndex, Series as index, one of the operands (or its .index object) as index, '
+             'explicit index with exactly as many stamps as a list has members; method None/ffill/bfill; '
              'columns ij/oj/lj/rj/None/False. Oracle: dictionary model per cell, index as ordered list, column set, container types/keys, identity of '
              'non-timeseries members, inputs unchanged. non-trivial = two timeseries with partially overlapping or disjoint indices, or a cell actually '
              'filled from another stamp',
@@ -1323,30 +1823,48 @@ SUBS = [
                                  'as_of_filled_cell': 0.1, 'join=l': 0.04, 'join=r': 0.04, 'join=idx': 0.05, 'join=series': 0.05, 'join=i': 0.04, 'join=o': 0.04,
                                  'same_span_same_length_different_interior': 0.04, 'twins_under_ij_oj': 0.01, 'same_length_different_stamps': 0.04,
                                  'same_endpoints_different_length': 0.03, 'nested_chain': 0.03, 'same_first_two_stamps': 0.03, 'same_last_two_stamps': 0.02,
-                                 'all_equal': 0.005}),
+                                 'all_equal': 0.005,
+                                 'mixed_datetime_units': 0.025, 'same_object_passed_twice': 0.02, 'equal_operands_distinct_objects': 0.03,
+                                 'left_right_join_with_a_repeated_object': 0.004, 'operand_is_also_the_target': 0.03, 'numeric_column_labels': 0.02, 'duplicate_column_labels': 0.008,
+                                 'int_column_in_frame': 0.015, 'numeric_dict_keys': 0.07, 'index_length_equals_member_count': 0.03, 'explicit_index_as_long_as_the_list': 0.013,
+                                 'keyword_call': 0.08}),
     Sub('asof', lambda tier: _asof_case(), run_sync, quick=1600, thorough=12000,
         rule=_RULE_TS + 'one bare object, df_reindex(obj, explicit DatetimeIndex / Series as index / ij / oj, method) with method mostly ffill/bfill; '
              'same oracle. non-trivial = a cell filled from another stamp',
         floor=0.1, class_floors={'method=ffill': 0.15, 'method=bfill': 0.15, 'multi_column_frame': 0.1, 'as_of_filled_cell': 0.1,
                                   'vs_target:same_span_same_length_different_interior': 0.05, 'vs_target:nested_chain': 0.1,
-                                  'vs_target:same_length_different_stamps': 0.05, 'vs_target:same_endpoints_different_length': 0.03}),
+                                  'vs_target:same_length_different_stamps': 0.05, 'vs_target:same_endpoints_different_length': 0.03,
+                                  'mixed_datetime_units': 0.02, 'numeric_column_labels': 0.02, 'duplicate_column_labels': 0.006, 'int_column_in_frame': 0.006}),
     Sub('presync', lambda tier: _presync_case(), run_presync, quick=1200, thorough=8000,
-        rule=_RULE_TS + 'f returns its arguments; f is declared as f(p0..p3), f(p0, *rest), f(p0, **kw) or f(*a, **kw); 1-4 arguments (each a leaf or a tree to depth 2) passed positionally / by keyword / mixed; '
-             'presync configured by constructor, by properties (.oj.ffill), by call-time join=/method=, or index="p<i>"; columns=False with any tree, '
+        rule=_RULE_TS + 'f returns its arguments; f is declared as f(p0..p3), f(p0, *rest), f(p0, **kw), f(*a, **kw), f(p0, *, p1, p2, p3) or with declared defaults that are / hold timeseries (which must reach f untouched and leave the common index alone); 1-4 arguments (each a leaf or a tree to depth 2) passed positionally / by keyword / mixed; '
+             'presync configured by constructor, by properties (.oj.ffill), by call-time join=/method= (and columns= against another constructor policy), index="p<i>", or an operand as index; columns=False with any tree, '
              'default column mode with Series-only trees. Same oracle on what f receives. non-trivial as in sync',
         floor=0.3, class_floors={'shared_index_object_around_another_index': 0.02, 'right_join_on_a_shared_index_object': 0.004, 'timeseries_through_*args': 0.05, 'timeseries_through_**kwargs': 0.05, 'mixed_positional_keyword': 0.1, 'mode=raw': 0.2, 'mode=cols': 0.2, 'how=prop': 0.1, 'how=call': 0.1, 'join=arg': 0.02,
-                                  'same_span_same_length_different_interior': 0.02, 'twins_under_ij_oj': 0.005, 'same_length_different_stamps': 0.04, 'nested_chain': 0.03}),
+                                  'same_span_same_length_different_interior': 0.02, 'twins_under_ij_oj': 0.005, 'same_length_different_stamps': 0.04, 'nested_chain': 0.03,
+                                  'sig=kwonly': 0.025, 'sig=defaults': 0.02, 'timeseries_in_an_unpassed_declared_default': 0.02, 'timeseries_through_keyword_only_parameter': 0.018,
+                                 'columns_given_at_call_time': 0.1, 'same_object_passed_twice': 0.02, 'left_right_join_with_a_repeated_object': 0.005,
+                                 'operand_is_also_the_target': 0.012, 'mixed_datetime_units': 0.02, 'explicit_index_as_long_as_the_list': 0.004, 'duplicate_column_labels': 0.004,
+                                 'numeric_dict_keys': 0.04}),
     Sub('presync_cols', lambda tier: _presync_case(True), run_presync_cols, quick=1000, thorough=6000,
         rule=_RULE_TS + 'default column mode with frames among the arguments: f records every call; expected one call per common column (the shared columns '
              'when all multi-column frames agree, else the ij/oj/lj/rj column set), each call seeing every multi-column frame as that column (Series on the '
-             'common index, as-of filled) or NaN when the frame lacks it, single-column frames as their column, Series aligned, the rest identical',
+             'common index, as-of filled) or NaN / the default= given to presync when the frame lacks it, single-column frames as their column, Series aligned, the rest identical',
         floor=0.3, class_floors={'sig=varargs': 0.05, 'sig=varkw': 0.05, 'sig=var_both': 0.05, 'frames_differing_columns': 0.1, 'all_frames_same_columns': 0.1,
-                                  'same_span_same_length_different_interior': 0.04, 'twins_under_ij_oj': 0.01, 'same_length_different_stamps': 0.04, 'nested_chain': 0.03}),
+                                  'same_span_same_length_different_interior': 0.04, 'twins_under_ij_oj': 0.01, 'same_length_different_stamps': 0.04, 'nested_chain': 0.03,
+                                  'default=given': 0.13, 'default_shown_for_a_lacking_column': 0.024, 'columns_given_at_call_time': 0.1, 'numeric_column_labels': 0.03,
+                                 'sig=kwonly': 0.025, 'sig=defaults': 0.02, 'timeseries_in_an_unpassed_declared_default': 0.02, 'int_column_in_frame': 0.02,
+                                 'mixed_datetime_units': 0.02, 'same_object_passed_twice': 0.02, 'operand_is_also_the_target': 0.016}),
     Sub('session', lambda tier: _session_case(), run_session, quick=800, thorough=6000,
-        rule=_RULE_TS + '3-4 Series / frames built ONCE, then 2-4 calls of df_index / df_reindex / df_sync / presync(f) on ordered selections of those same objects (half of them a '
+        rule=_RULE_TS + '3-4 Series / frames (now and then a small list / dict of them, or one of them twice) built ONCE, then 2-4 calls of df_index / df_reindex / df_sync / presync(f) on ordered selections of those same objects (half of them a '
              'prefix or an extension of the previous selection), mostly under one join policy; every call judged by the oracle of sync / presync, so a result may not depend on '
-             'what was aligned before. non-trivial = two consecutive calls whose operand lists are prefix-related',
-        floor=0.2, class_floors={'operands_prefix_of_previous_call': 0.15, 'operands_extend_previous_call': 0.1, 'different_entry_points_share_operands': 0.2, 'one_join_policy_throughout': 0.2}),
+             'what was aligned before. In half of the sessions the list / dict containers are built once too and the same container object goes to several calls (a repeat of the previous '
+             'operands half of the time under another policy); the presync calls of 3 sessions in 4 go through ONE decorator object presync(index=, method=, columns=False) applied to one function '
+             'per shape, reached plainly, by call-time join=/method=, or through .oj/.ffill properties - mostly followed by a plain call that must show the policy the object was built with. '
+             'non-trivial = two consecutive calls whose operand lists are prefix-related',
+        floor=0.2, class_floors={'operands_prefix_of_previous_call': 0.15, 'operands_extend_previous_call': 0.1, 'different_entry_points_share_operands': 0.2, 'one_join_policy_throughout': 0.2,
+                                 'same_container_object_passed_again': 0.05, 'same_container_object_again_under_another_policy': 0.012, 'one_decorator_object_for_several_calls': 0.06, 'decorator_used_again_after_an_override': 0.045,
+                                 'one_decorator_applied_to_two_functions': 0.014, 'mixed_datetime_units': 0.045, 'numeric_column_labels': 0.025, 'numeric_dict_keys': 0.025,
+                                 'same_object_passed_twice': 0.14, 'int_column_in_frame': 0.018}),
     Sub('arrays', lambda tier: _arrays_case(6 if tier == 'quick' else 9), run_arrays, quick=2000, thorough=12000,
         rule='trees (depth <= 3) of bare numpy arrays: 1-d and 2-d (1-3 columns), 0-6 rows (0-9 thorough), float64 with NaN / int64, mixed with scalars; '
              'df_sync / df_reindex / df_index / presync(columns=False) with ij,oj,lj,rj and method None/ffill/bfill. Oracle: common length = min/max/first/last, '
